@@ -1,6 +1,7 @@
 package props
 
 import (
+	"github.com/multiformats/go-varint"
 	"bytes"
 	"encoding/binary"
 	"encoding/hex"
@@ -191,6 +192,8 @@ func c11Proto(r *rand.Rand, kind int) metadata.Protocol {
 		return &metadata.IpfsGatewayHttp{}
 	case 2:
 		return c11Graphsync(r)
+	case 4:
+		return metadata.HTTPV1() // the library's own constructor for the plain HTTP protocol
 	default:
 		plen := []int{0, 1, 2, 127, 128, 300, 1000}[r.Intn(7)]
 		if r.Intn(3) == 0 {
@@ -301,6 +304,23 @@ func c11CheckRoundTrip(c *vf.Ctx, sub string, i int, members []metadata.Protocol
 	if err != nil || !bytes.Equal(re, enc) {
 		c.Fail(sub, i, "reencode-differs-valid", fmt.Sprintf("err=%v", err), wit())
 	}
+	// every member on its own: its encoding is not empty, names its ID, and a metadata of just that protocol round-trips
+	for _, m := range members {
+		b, err := m.MarshalBinary()
+		if err != nil || len(b) == 0 {
+			c.Fail(sub, i, "protocol-encodes-to-nothing", fmt.Sprintf("id %#x: %d bytes, err=%v", uint64(m.ID()), len(b), err), wit())
+			return
+		}
+		if code, _, err := varint.FromUvarint(b); err != nil || code != uint64(m.ID()) {
+			c.Fail(sub, i, "protocol-encoding-does-not-start-with-its-id", fmt.Sprintf("id %#x: % x", uint64(m.ID()), b[:min(len(b), 8)]), wit())
+			return
+		}
+		one := metadata.Default.New()
+		if err := one.UnmarshalBinary(b); err != nil || one.Get(m.ID()) == nil || !one.Equal(metadata.Default.New(m)) {
+			c.Fail(sub, i, "single-protocol-roundtrip-fails", fmt.Sprintf("id %#x: err=%v", uint64(m.ID()), err), wit())
+			return
+		}
+	}
 }
 
 // ---- the monitor ----------------------------------------------------------------------
@@ -392,7 +412,7 @@ func c11Sampled(c *vf.Ctx) {
 		members := make([]metadata.Protocol, size)
 		kinds := make([]int, size)
 		for k := range members {
-			kinds[k] = r.Intn(4)
+			kinds[k] = r.Intn(5)
 			members[k] = c11Proto(r, kinds[k])
 		}
 		c.Cur(sub, i, fmt.Sprint(kinds))
